@@ -357,6 +357,31 @@ class T2TagEnv(Env):
         raise nfc.clf.TimeoutError("unsupported command: tag goes mute")
 
 
+class T1TagEnv(T2TagEnv):
+    """A Type 1 Tag (Topaz) in the field: discovered at 106A with SENS_RES 000Ch
+    and RID_RES only - a Type 1 Tag platform has no anticollision, so the
+    target carries neither SDD_RES nor SEL_RES.  It answers no command here
+    (what is exercised is what the frontend's users make of such a target)."""
+
+    def sense(self, kind, target):
+        self.selected = None
+        if kind != "tta" or self.gone or target.sel_req:
+            return None
+        self.nsense += 1
+        if self.nsense <= self.appear:
+            return None
+        found = nfc.clf.RemoteTarget(
+            "106A", sens_res=self.sx.mkbytes([0x00, 0x0C]),
+            rid_res=self.sx.mkbytes([0x11, 0x48, 0x01, 0x02, 0x03, 0x04]))
+        self.selected = found
+        self.found.append(found)
+        self.trace.add("env", "found", found)
+        return found
+
+    def cmd(self, target, data, timeout):
+        raise nfc.clf.TimeoutError("type 1 tag model answers nothing")
+
+
 class T4ATagEnv(T2TagEnv):
     """A minimal Type 4A Tag (SEL_RES bit 5): activation really talks to the
     driver.  RATS (E0h) is answered with ATS 05 78 80 40 02; the FIRST RATS of
